@@ -67,22 +67,27 @@ Proof.
 Qed.
 Print Assumptions C04_walk_once.
 
-(* otto's Walk is that traversal on every tree without a nil pointer in a child slot,
-   whatever the visitor prunes *)
-Theorem C04_walk_model_agrees : forall stop t, count_typed_nil t = 0 -> walk stop t = walk_s stop t.
-Proof. exact walk_no_typed_nil. Qed.
+(* otto's Walk is that traversal on every tree whose nil pointers sit only in the slots Walk
+   tests (BranchStatement.Label, FunctionLiteral.Name, TryStatement.Catch: the only pointer
+   fields the parser leaves nil), whatever the visitor prunes *)
+Theorem C04_walk_model_agrees : forall stop t, stray_typed_nil t = 0 -> walk stop t = walk_s stop t.
+Proof. exact walk_agrees. Qed.
 Print Assumptions C04_walk_model_agrees.
 
-(* and hands a nil node to the visitor on every other tree *)
-Theorem C04_walk_nil_refuted : forall t, 0 < count_typed_nil t -> In ENilEnter (walk no_stop t).
-Proof. exact walk_typed_nil_seen. Qed.
-Print Assumptions C04_walk_nil_refuted.
-
-Definition t_break :=   (* for(;;){break} : the BranchStatement's Label is a nil *Identifier *)
-  T KBranch [9; 5; 0] [CTypedNil].
-Theorem C04_walk_nil_witness : exists t, walk no_stop t <> walk_s no_stop t.
-Proof. exists t_break. vm_compute. discriminate. Qed.
-Print Assumptions C04_walk_nil_witness.
+(* hence otto's Walk itself enters and exits every node exactly once, properly nested, and
+   never hands a nil node to the visitor — a plain break, an anonymous function and a
+   try/finally included (repaired by adb8fc0; formerly C04_walk_nil_refuted) *)
+Theorem C04_walk_never_nil : forall t, stray_typed_nil t = 0 ->
+  enters (walk no_stop t) = nodes t /\
+  exits (walk no_stop t) = nodes_post t /\
+  balanced_from 0 (walk no_stop t) = Some 0%nat /\
+  forallb (fun e => negb (is_nil_event e)) (walk no_stop t) = true.
+Proof.
+  intros t H. rewrite (walk_agrees no_stop t H).
+  split; [apply walk_s_enters|]. split; [apply walk_s_exits|]. split; [|apply walk_s_no_nil].
+  rewrite <- (app_nil_r (walk_s no_stop t)). apply walk_s_balanced.
+Qed.
+Print Assumptions C04_walk_never_nil.
 
 (* parse-time legality: otto's scope flags decide exactly the ES5 rules (12.7 continue, 12.8
    break, 12.9 return, 12.12 labels, 12.14 try) on every program in which each labelled
@@ -127,8 +132,18 @@ Definition t_ok :=   (* a: while (x) { break a; }  at base 1 *)
     [CNode (T KIdentifier [1; 1; 0] []);
      CNode (T KWhile [4] [CNode (T KIdentifier [11; 1; 1] []);
        CNode (T KBlock [14; 25] [CNode (T KBranch [16; 5; 0] [CNode (T KIdentifier [22; 1; 0] [])])])])])].
-Example C04_spans_hyp_met : all_local_ok t_ok = true /\ in_file_b 1 25 t_ok = true /\ count_typed_nil t_ok = 0.
+Example C04_spans_hyp_met : all_local_ok t_ok = true /\ in_file_b 1 25 t_ok = true /\ stray_typed_nil t_ok = 0.
 Proof. vm_compute. auto. Qed.
+(* the former witnesses of the typed-nil defect meet the hypothesis of C04_walk_never_nil
+   although they do hold nil pointers: break without label, anonymous function, try/finally *)
+Definition t_break := T KBranch [9; 5; 0] [CTypedNil].
+Definition t_anon := T KFunction [5] [CTypedNil; CNode (T KBlock [15; 16] [])].
+Definition t_tryfin := T KTry [1] [CNode (T KBlock [5; 6] []); CTypedNil; CNode (T KBlock [16; 17] [])].
+Example C04_walk_hyp_met :
+  count_typed_nil t_break = 1 /\ stray_typed_nil t_break = 0 /\ walk no_stop t_break = walk_s no_stop t_break /\
+  stray_typed_nil t_anon = 0 /\ stray_typed_nil t_tryfin = 0 /\
+  stray_typed_nil (T KDot [] [CNode t_break; CTypedNil]) = 1.
+Proof. vm_compute. auto 10. Qed.
 Example C04_early_hyp_met :
   ctl_prog [SLabel 0 (SLoop (SBlock [SContinue (Some 0); SBreak (Some 0)]))] = true /\
   accepts_s [SLabel 0 (SLoop (SBlock [SContinue (Some 0); SBreak (Some 0)]))] = true /\
